@@ -409,4 +409,91 @@ theorem runM_single {classes : List ClassDef} : ∀ (ops : List GOp) (g : GWorld
       simp only [mapE]
       exact ih g1 (stepG_inv hi h1).1
 
+/-! ### an operation touches only the configuration it is aimed at -/
+
+/-- the configuration an operation can modify -/
+def opTarget (m : MWorld) : MOp → Option Nat
+  | .on j _ => some j
+  | .setGlobal j => some j
+  | .syn _ => m.glob
+  | .new _ _ => none
+  | .sget _ => none
+
+theorem stepM_other_conf {classes : List ClassDef} {m m' : MWorld} {op : MOp} {r : Option Snap} {i : Nat} {c : Conf}
+    (h : stepM classes m op = .ok (m', r)) (ht : opTarget m op ≠ some i) (hc : m.confs[i]? = some c) :
+    m'.confs[i]? = some c := by
+  cases op with
+  | new nc cfg =>
+    simp only [stepM] at h
+    cases h1 : newConf nc cfg with
+    | error e => simp [h1] at h
+    | ok c1 =>
+      simp [h1] at h
+      obtain ⟨hm, _⟩ := h; subst hm
+      simp only
+      rw [List.getElem?_append, if_pos (lt_of_getElem? hc)]
+      exact hc
+  | on j o =>
+    have hji : j ≠ i := fun e => ht (by simp [opTarget, e])
+    simp only [stepM] at h
+    cases hcj : m.confs[j]? with
+    | none => simp [hcj] at h
+    | some cj =>
+      simp only [hcj] at h
+      cases h1 : stepG classes (viewOf m j cj) (.op o) with
+      | error e => simp [h1] at h
+      | ok gs =>
+        obtain ⟨g', s⟩ := gs
+        simp [h1] at h
+        obtain ⟨hm, _⟩ := h; subst hm
+        simp only [putBack]
+        rw [List.getElem?_set_ne hji]; exact hc
+  | setGlobal j =>
+    have hji : j ≠ i := fun e => ht (by simp [opTarget, e])
+    simp only [stepM] at h
+    cases hcj : m.confs[j]? with
+    | none => simp [hcj] at h
+    | some cj =>
+      simp only [hcj] at h
+      cases h1 : stepG classes (viewOf m j cj) .setGlobal with
+      | error e => simp [h1] at h
+      | ok gs =>
+        obtain ⟨g', s⟩ := gs
+        simp [h1] at h
+        obtain ⟨hm, _⟩ := h; subst hm
+        simp only [putBack]
+        rw [List.getElem?_set_ne hji]; exact hc
+  | syn k =>
+    simp only [stepM] at h
+    cases hgl : m.glob with
+    | some j =>
+      have hji : j ≠ i := fun e => ht (by simp [opTarget, hgl, e])
+      simp only [hgl] at h
+      cases hcj : m.confs[j]? with
+      | none => simp [hcj] at h
+      | some cj =>
+        simp only [hcj] at h
+        cases h1 : stepG classes (viewOf m j cj) (.syn k) with
+        | error e => simp [h1] at h
+        | ok gs =>
+          obtain ⟨g', s⟩ := gs
+          simp [h1] at h
+          obtain ⟨hm, _⟩ := h; subst hm
+          simp only [putBack]
+          rw [List.getElem?_set_ne hji]; exact hc
+    | none =>
+      simp only [hgl] at h
+      cases h1 : stepG classes ⟨⟨⟨false, [], [], []⟩, m.ncCache⟩, false, m.synced⟩ (.syn k) with
+      | error e => simp [h1] at h
+      | ok gs =>
+        obtain ⟨g', s⟩ := gs
+        simp [h1] at h
+        obtain ⟨hm, _⟩ := h; subst hm
+        exact hc
+  | sget k =>
+    simp only [stepM] at h
+    cases hcg : cacheGet m.synced k with
+    | some s0 => simp [hcg] at h; obtain ⟨hm, _⟩ := h; subst hm; exact hc
+    | none => simp [hcg] at h
+
 end ColorsConf
